@@ -49,11 +49,67 @@ URLGEN = {
 }
 
 
+# ---------------------------------------------------------------- abstract base URLs for the spelling machines (C02-C06)
+def chars(text):
+    """readable text -> list of [code point, escaped?, lowerhex?, fixed?]; a %XX in the readable
+    form is a FIXED escape (of a delimiter / control / '%': may never be unescaped)."""
+    out = []
+    i = 0
+    while i < len(text):
+        if text[i] == "%":
+            out.append([int(text[i + 1:i + 3], 16), 1, 0, 1])
+            i += 3
+        else:
+            out.append([ord(text[i]), 0, 0, 0])
+            i += 1
+    return out
+
+
+def base(scheme, host, port="", user=None, pw=None, segs=(), trailing=False, items=(), frag=None):
+    return {"scheme": cp(scheme), "hasuser": user is not None, "user": chars(user or ""),
+            "haspass": pw is not None, "pass": chars(pw or ""), "host": [cp(l) for l in host.split(".")], "port": cp(port),
+            "segs": [chars(x) for x in segs], "trailing": bool(trailing),
+            "items": [[chars(k), v is not None, chars(v or "")] for k, v in items],
+            "hasfrag": frag is not None, "frag": chars(frag or "")}
+
+
+BASES = [
+    base("http", "example.com"),
+    base("https", "example.com", segs=["a"]),
+    base("http", "example.com", segs=["a b", "c"], trailing=True),
+    base("http", "café.fr", segs=["é~"], items=[("k", "v")]),
+    base("https", "münchen.example.com", port="8080", segs=["x"], frag="f"),
+    base("http", "example.com", user="u", segs=["p"]),
+    base("http", "example.com", user="u s", pw="p~w", segs=["p"]),
+    base("http", "example.com", user="a%40b", pw="c%3Ad", items=[("k", "v")]),
+    base("http", "example.com", segs=["a%2Fb", "c%3Fd"]),
+    base("http", "example.com", segs=["x%23y", "z%25w"], trailing=True),
+    base("https", "example.co.uk", segs=["a:b", "c@d"], items=[("k", "a=b")]),
+    base("http", "example.com", items=[("k", "v"), ("j", "w")]),
+    base("http", "example.com", segs=["p"], items=[("k", None), ("é", "ü y")]),
+    base("http", "example.com", items=[("a%26b", "c%3Dd"), ("e", "f%23g")]),
+    base("http", "example.com", items=[("q", "x%2By"), ("r", "1+2")]),
+    base("http", "example.com", items=[("u", "a/b?c")], frag="x/y"),
+    base("https", "example.com", segs=["a"], frag="é f"),
+    base("http", "example.com", frag="a%25b"),
+    base("http", "日本.example.com", segs=["日本"]),
+    base("http", "example.com", segs=["a%00b"], items=[("k", "v%0A")]),
+    base("http", "example.com", segs=["A", "B.html"], items=[("K", "V")], frag="F"),
+    base("https", "sub.example.com", port="81", user="U", pw="P", segs=["s", "t"], trailing=True, items=[("k", "v")], frag="f"),
+    base("http", "example.com", segs=["a%E9b"]),
+    base("http", "example.com", segs=["-._~"], items=[("-._~", "-._~")]),
+    base("http", "example.com", user="u", pw="p:w", segs=["a;b,c", "d(e)"], items=[("k", "v;w"), ("j", "x,y!")], frag="a:b@c"),
+    base("https", "example.com", segs=["a+b", "c=d&e"], items=[("k", "a+b"), ("j", "$'*")]),
+]
+
+
 def main():
     d = os.path.join(ROOT, "spec", "data")
     os.makedirs(d, exist_ok=True)
     with open(os.path.join(d, "urlgen.json"), "w") as f:
         json.dump(URLGEN, f, separators=(",", ":"))
+    with open(os.path.join(d, "bases.json"), "w") as f:
+        json.dump({"bases": BASES}, f, separators=(",", ":"))
     print("written", d)
 
 
